@@ -14,7 +14,7 @@ EXTENDS Inherit, Json, IOUtils
 Traces == JsonDeserialize(IOEnv.TRACE_FILE)
 VARIABLES tr, verdict
 tvars == <<vars, tr, verdict>>
-TMaxN == [dispatch |-> 0, attrs |-> 0, blocks |-> 0, args |-> 0, dyn |-> 0, entry |-> 0]      \* (the MC enumeration is not used here)
+TMaxN == [dispatch |-> 0, attrs |-> 0, blocks |-> 0, args |-> 0, dyn |-> 0, entry |-> 0, dirs |-> 0]      \* (the MC enumeration is not used here)
 TraceTplImpl(t, i) == Traces[t].cfg.tpl[i]
 TInit == \E t \in 1..Len(Traces) :
            /\ tr = t /\ verdict = "run"
